@@ -68,8 +68,8 @@ func (s *Status) Err() error {
 		return nil
 	}
 
-	// TODO: handle 2xx, 3xx
-	if s.Code != http.StatusOK {
+	// TODO: handle 3xx
+	if s.Code/100 != 2 {
 		return &HTTPError{Code: s.Code}
 	}
 	return nil
